@@ -19,3 +19,22 @@ add('C03', 'differential + round-trip property-based testing (Hypothesis + cover
     'inner headers) must decrypt under PGPy to the original.',
     'Trusted: refpgp.enc (own S2K, RFC 6637 KDF, RFC 3394 wrap, CFB, MDC) sharing only block ciphers/RSA/ECDH primitives and hashlib with PGPy.',
     'DESIGN.md 4/C03')
+add('C04', 'fault enumeration over concrete ciphertexts (every bit / offset / block / packet-level splice) plus Hypothesis-sampled bases, with a pure safety oracle (raise, or the original plaintext)',
+    'For 7 base messages in quick (54 + 7 exhaustive bases in thorough: every cipher x ECDH on 3 curves / RSA / passphrase) every single-bit flip of the container '
+    'and of each session-key packet, truncation at every offset, extensions, block swap/dup/delete, splices with a second message under the same session key, '
+    'smuggled cleartext packets, ESK surgery, MDC forgeries made with the session key, and wrong passphrases / non-recipient keys are tried; decrypt must raise or '
+    'return exactly the original content and metadata.',
+    'Trusted: refpgp.wire to locate packets, refpgp.enc to forge containers. Any exception counts as a refusal; hangs (10 s watchdog) are counted, not failed. '
+    'One open known finding (tag 18 -> tag 9 downgrade) is listed in known_findings.jsonl.',
+    'DESIGN.md 4/C04')
+add('C10', 'exhaustive enumeration of payload lengths and corruption positions + Hypothesis over objects/headers/input forms, against an independent strict section-6 armor reader and table-driven CRC-24',
+    'All payload lengths 1..4100 x 3 fills through a minimal Armorable subclass (reference reader: payload, label, width, CRC, headers; ascii_unarmor from str/bytes/'
+    'bytearray, LF/CRLF, embedded in text); 5 object kinds x generated headers x input forms (label per kind, armored load == binary load, wrong kind rejected); '
+    'every base64/CRC character position of several blocks substituted (2 alternatives) must be reported unless the payload is unchanged.',
+    'Trusted: refpgp.armor (CRC check value 0x21CF02 verified at start-up), base64 module. Header values containing ": " are not generated.',
+    'DESIGN.md 4/C10')
+add('C12', 'differential testing against an independent streaming S2K: exhaustive over specifier x hash x cipher x low counts and over all 256 coded counts, Hypothesis over salts/passphrases',
+    'String2Key.derive_key (directly and after serialise/parse of the specifier) is compared with refpgp.s2k for 3 specifiers x 7 hashes x 11 cipher ids x 44 counts x '
+    '6 passphrase shapes, all 256 counts for SHA-1/SHA-256 (all hashes x 3 key sizes in thorough), and random tuples with passphrases to 5000 octets.',
+    'Trusted: hashlib. Only one- and two-context derivations are reachable through PGPy\'s cipher table.',
+    'DESIGN.md 4/C12')
